@@ -76,6 +76,34 @@ CASES = [
       good=["forall(lambda j: implies(0 <= j and j < len(xs), xs[j] != 0))", "result == True"], bad=["len(xs) == 0"],
       raises={'ValueError': ["exists(lambda j: 0 <= j and j < len(xs) and xs[j] == 0)"]},
       loops={'L1': LoopSpec(inv=["forall(lambda j: implies(0 <= j and j < _i, xs[j] != 0))"])}),
+    C('first_then_rest', lambda cx: dict(xs=cx.val('xs', IS)),
+      good=["result[1] == forall(lambda k: implies(0 <= k and k < len(xs), xs[k] == xs[0]))",
+            "implies(len(xs) > 0, result[0] == xs[0])"],
+      bad=["result[1] == True", "result[1] == forall(lambda k: implies(1 <= k and k < len(xs), xs[k] == xs[1]))"]),
+    C('skipped_loop', lambda cx: dict(xs=cx.val('xs', IS), flag=cx.val('flag', TBool)),
+      good=["result[0] == (len(xs) if flag else 0)", "0 <= result[1] and result[1] <= len(xs)"],
+      bad=["result[0] == len(xs)", "result[1] == len(xs)"],
+      loops={'L1': LoopSpec(inv=["total == _i"]), 'L2': LoopSpec(inv=["0 <= count and count <= _i"])}),
+    C('inverse_map', lambda cx: dict(pairs=cx.val('pairs', TSeq(TTuple(TInt, TStr)))),
+      requires=["forall(lambda i, j: implies(0 <= i and i < j and j < len(pairs), pairs[i][1] != pairs[j][1]))"],
+      good=["forall(lambda i: implies(0 <= i and i < len(pairs), pairs[i][1] in result and result[pairs[i][1]] == pairs[i][0]))"],
+      bad=["forall(lambda i: implies(0 <= i and i < len(pairs), result[pairs[i][1]] == 0))", "len(result) == 0"]),
+    C('positives', lambda cx: dict(xs=cx.val('xs', IS)),
+      good=["forall(lambda i: implies(0 <= i and i < len(xs) and xs[i] > 0, xs[i] in result))", "forall(lambda v: implies(v in result, v > 0))"],
+      bad=["forall(lambda i: implies(0 <= i and i < len(xs), xs[i] in result))"]),
+    C('keys_minus', lambda cx: dict(d=cx.val('d', TMap(TInt, TInt)), s=cx.val('s', TSet(TInt))),
+      good=["forall(lambda k: (k in result) == (k in d and not (k in s)))"], bad=["forall(lambda k: (k in result) == (k in d))"]),
+    C('count_seps', lambda cx: dict(tokens=cx.val('tokens', TSeq(TStr))),
+      good=["result <= 1", "(result == 0) == forall(lambda i: implies(0 <= i and i < len(tokens), tokens[i] != '--'))"],
+      bad=["result == 0", "result == 1"],
+      raises={'ValueError': ["exists(lambda i, j: 0 <= i and i < j and j < len(tokens) and tokens[i] == '--' and tokens[j] == '--')"]}),
+    C('mod_pos', lambda cx: dict(a=cx.val('a', TInt), b=cx.val('b', TInt)),
+      good=["implies(b > 0, result == a)"], bad=["result == a", "implies(b > 0, result == 0)"]),
+    C('for_else_search', lambda cx: dict(xs=cx.val('xs', IS), t=cx.val('t', TInt)),
+      good=["(result == 1) == exists(lambda i: 0 <= i and i < len(xs) and xs[i] == t)"], bad=["result == 1", "result == -1"],
+      loops={'L1': LoopSpec(inv=["forall(lambda i: implies(0 <= i and i < _i, xs[i] != t))"]), 'L2': LoopSpec(inv=["found == 0"])}),
+    C('empty_set_truth', lambda cx: dict(xs=cx.val('xs', IS)),
+      good=["(result == 0) == (len(xs) == 0)"], bad=["result == 1", "result == 0"]),
 ]
 
 
@@ -147,6 +175,10 @@ def differential(rng, n):
         'pop_middle': lambda: dict(xs=tuple(rng.randint(0, 9) for _ in range(rng.randint(0, 4))), i=rng.randint(-5, 5)),
         'remove_first': lambda: dict(xs=tuple(rng.randint(0, 3) for _ in range(rng.randint(0, 5))), x=rng.randint(0, 3)),
         'neg_slice': lambda: dict(xs=tuple(rng.randint(0, 9) for _ in range(rng.randint(0, 5))), k=rng.randint(1, 5)),
+        'first_then_rest': lambda: dict(xs=tuple(rng.randint(0, 1) for _ in range(rng.randint(0, 4)))),
+        'skipped_loop': lambda: dict(xs=tuple(rng.randint(-2, 2) for _ in range(rng.randint(0, 4))), flag=rng.choice([True, False])),
+        'mod_pos': lambda: dict(a=rng.randint(-20, 20), b=rng.randint(-2, 6)),
+        'for_else_search': lambda: dict(xs=tuple(rng.randint(0, 3) for _ in range(rng.randint(0, 4))), t=rng.randint(0, 3)),
     }
     bad = []
     runs = 0
